@@ -211,6 +211,13 @@ mutant("C17", "uniform-refinement-view", "src/darsia/restoration/resize.py",
     for level in range(abs(levels)):
 """, "no copy before refinement; harmless unless an in-place step follows (control)")
 M.pop()
+mutant("C17", "resize-reseeds-opencv-rng", "src/darsia/restoration/resize.py",
+       """        # Extract original image
+        img_array = img.img.copy() if input_is_image else img.copy()
+""", """        # Extract original image
+        cv2.setRNGSeed(0)
+        img_array = img.img.copy() if input_is_image else img.copy()
+""", "resizing reseeds OpenCV's global random generator (global random state altered; numpy's is untouched)")
 mutant("C17", "subtraction-in-place", "src/darsia/image/image.py",
        """            metadata = self.metadata()
             return type(self)(self.img - other.img, **metadata)
